@@ -1,5 +1,6 @@
 import DiscretModel.Model.Proto
 import DiscretModel.Model.RoomBuild
+import DiscretModel.Model.LocalWrite
 /-
 Model driver for engine `room` (local path). Same op lines as `harness/room` (see its `world.rs`):
   case id=<n> keys=<K> dmax=<D> [uids=desc]
@@ -7,6 +8,10 @@ Model driver for engine `room` (local path). Same op lines as `harness/room` (se
   obs s=<site> r=<room>
   restart s=<site>
   sync from=<site> to=<site> r=<room>
+with `mode=fn` in the case header (one database, several caller identities; see harness `bench.rs`):
+  rmut k=<key> d=<date> r=<room> … | robs r=<room>
+  new k= d= h= e= [room=] v= | upd k= d= h= [room=] [v=] | nest k= d= h= [pn=] [room=] [v=] f= c=
+  null k= d= h= f= | del k= d= h= | delref k= d= h= f= c= | deladm k= d= r= i=
 anything else -> `bad-op`
 -/
 open Discret Discret.Proto Discret.Room Discret.RoomBuild
@@ -20,9 +25,17 @@ structure World where
   nextId : Nat
   rooms : List Nat
   groups : List (Nat × Nat)
+  /-- `mode=fn` -/
+  fn : Bool
+  dfl : LocalWrite.Defects
+  db : LocalWrite.Db
+  handles : List (Nat × Ent)
+  /-- per room, the ids of its admin entries in creation order -/
+  adminIds : List (Nat × Nat)
 
 def World.blank : World :=
-  { active := false, keys := 0, dmax := 0, df := Defects.asImplemented, sites := [], nextId := 0, rooms := [], groups := [] }
+  { active := false, keys := 0, dmax := 0, df := Defects.asImplemented, sites := [], nextId := 0, rooms := [], groups := [],
+    fn := false, dfl := LocalWrite.Defects.asImplemented, db := LocalWrite.Db.empty, handles := [], adminIds := [] }
 
 def identOfSite (s : Nat) : Nat := if s < 3 then s + 1 else 100 + s
 
@@ -84,8 +97,8 @@ def parseGroupsSpec (w : World) (toks : List String) (r : Nat) : Option (List Gr
             some { gid := gidOf r g, isNew := !w.groups.contains (r, g), rights, users, userAdmins := uas }
           | _, _, _ => none
 
-def parseMut (w : World) (toks : List String) : Option (Nat × MutSpec × List Nat) :=
-  match nat? toks "s", int? toks "d", nat? toks "r" with
+def parseMut (w : World) (toks : List String) (who : String := "s") : Option (Nat × MutSpec × List Nat) :=
+  match nat? toks who, int? toks "d", nat? toks "r" with
   | some s, some d, some r =>
     let isNew := kv? toks "new" = some "1"
     if isNew = w.rooms.contains r then none
@@ -124,6 +137,233 @@ def matrix (w : World) (room : Room) (r : Nat) : String :=
 
 def errLine (e : MErr) : String := "err:" ++ e.toString
 
+
+/-! ### `mode=fn`: one database, several callers -/
+
+namespace Fn
+open Discret.LocalWrite
+
+def insertStr (x : String) : List String → List String
+  | [] => [x]
+  | y :: t => if y < x then y :: insertStr x t else x :: y :: t
+
+def sortStr (l : List String) : List String := l.foldr insertStr []
+
+def insertRow (x : Row) : List Row → List Row
+  | [] => [x]
+  | y :: t => if y.id < x.id then y :: insertRow x t else x :: y :: t
+
+def roomStr : Option Id → String
+  | none => "-"
+  | some r => toString r
+
+def keyStr (w : World) (k : Key) : String := if 1 ≤ k ∧ k ≤ w.keys then toString k else "?"
+
+def dump (w : World) : String :=
+  let db := w.db
+  let rows := (db.rows.foldr insertRow []).map fun r =>
+    s!"{r.id}:{r.entity}:{roomStr r.room}:{keyStr w r.author}:{r.cdate}:{r.mdate}:v{r.val}"
+  let edges := sortStr (db.edges.map fun e => s!"{e.src}>{e.label}>{e.dest}:{keyStr w e.author}:{e.cdate}")
+  let dn := sortStr (db.nodeTombs.map fun t =>
+    s!"{t.room}:{t.id}:{t.entity}:{t.mdate}:{t.ddate}:{keyStr w t.author}")
+  let de := sortStr (db.edgeTombs.map fun t =>
+    s!"{t.room}:{t.src}>{t.label}>{t.dest}:{t.cdate}:{t.ddate}:{keyStr w t.author}")
+  "N[" ++ joinWith "," rows ++ "] E[" ++ joinWith "," edges ++ "] DN[" ++ joinWith "," dn ++ "] DE[" ++
+    joinWith "," de ++ "]"
+
+def rooms (w : World) : List Room := match w.site? 0 with | some s => s.mem | none => []
+
+def finish (w : World) (old : World) (r : Except LocalWrite.MErr Db) : World × String :=
+  match r with
+  | .ok db => let w' := { w with db }; (w', "ok " ++ dump w')
+  | .error e => (old, "err:" ++ e.toString ++ " " ++ dump old)
+
+/-- entity of the source and of the target of a reference label -/
+def labelTypes (f : Nat) : Ent × Ent := if f = 0 then (1, 1) else if f = 1 then (1, 2) else (2, 1)
+
+def handleEnt (w : World) (h : Nat) : Option Ent := (w.handles.find? (·.1 = h)).map (·.2)
+
+/-- optional room token: absent -> `some none`; present -> must be a created room -/
+def optRoom (w : World) (toks : List String) (k : String) : Option (Option Id) :=
+  match kv? toks k with
+  | none => some none
+  | some s => match s.toNat? with
+    | some r => if w.rooms.contains r then some (some r) else none
+    | none => none
+
+def optInt (toks : List String) (k : String) : Option (Option Int) :=
+  match kv? toks k with
+  | none => some none
+  | some s => match s.toInt? with
+    | some v => some (some v)
+    | none => none
+
+/-- `h3` | `h3:v7` | `h3:v7:r1` | `n4:v2` | `n4:v2:r0` -/
+def parseChild (t : String) : Option (Nat × Bool × Option Int × Option Nat) :=
+  match t.splitOn ":" with
+  | [] => none
+  | head :: rest =>
+    let hd : Option (Bool × Nat) :=
+      if head.startsWith "h" then (head.drop 1).toNat?.map (false, ·)
+      else if head.startsWith "n" then (head.drop 1).toNat?.map (true, ·)
+      else none
+    match hd with
+    | none => none
+    | some (isNew, handle) =>
+      let step : Option (Option Int × Option Nat) → String → Option (Option Int × Option Nat) := fun acc p =>
+        match acc with
+        | none => none
+        | some (v, r) =>
+          if p.startsWith "v" then (p.drop 1).toInt?.map fun x => (some x, r)
+          else if p.startsWith "r" then (p.drop 1).toNat?.map fun x => (v, some x)
+          else none
+      match rest.foldl step (some (none, none)) with
+      | none => none
+      | some (v, r) => if isNew && v.isNone then none else some (handle, isNew, v, r)
+
+def parseChildren (s : String) : Option (List (Nat × Bool × Option Int × Option Nat)) :=
+  match ((s.splitOn "+").filter (· ≠ "")).mapM parseChild with
+  | some (x :: t) => some (x :: t)
+  | _ => none
+
+def mkLeaves (w : World) (h : Nat) (parentNew : Bool) (dstE : Ent) :
+    List (Nat × Bool × Option Int × Option Nat) → List Nat → Option (List Leaf)
+  | [], _ => some []
+  | (handle, isNew, v, r) :: t, seen =>
+    if seen.contains handle then none
+    else
+      let okHandle :=
+        if isNew then (handleEnt w handle).isNone && !(parentNew && handle = h)
+        else handleEnt w handle = some dstE
+      let room : Option (Option Id) := match r with
+        | none => some none
+        | some r => if w.rooms.contains r then some (some r) else none
+      match okHandle, room, mkLeaves w h parentNew dstE t (handle :: seen) with
+      | true, some room, some rest => some ({ handle, isNew, entity := dstE, room, val := v } :: rest)
+      | _, _, _ => none
+
+end Fn
+
+open Fn in
+def stepFn (w : World) (kind : String) (rest : List String) : World × String :=
+  match kind with
+  | "rmut" =>
+    match parseMut w rest "k" with
+    | none => (w, "bad-op")
+    | some (k, m, gidx) =>
+      let (w, st) := w.touch 0
+      match st.mutate k w.nextId m with
+      | .error e => (w, errLine e)
+      | .ok st' =>
+        let w := w.setSite 0 st'
+        let newGroups := (gidx.filter fun g => !w.groups.contains (m.rid, g)).map fun g => (m.rid, g)
+        let newAdmins := (List.range m.admins.length).map fun i => (m.rid, w.nextId + i)
+        ({ w with nextId := w.nextId + m.size,
+                  rooms := if m.isNew then w.rooms ++ [m.rid] else w.rooms,
+                  groups := w.groups ++ newGroups, adminIds := w.adminIds ++ newAdmins }, "ok")
+  | "robs" =>
+    match nat? rest "r" with
+    | some r =>
+      if !w.rooms.contains r then (w, "none")
+      else match (w.site? 0).bind (·.getMem r) with
+        | some room => (w, matrix w room r)
+        | none => (w, "none")
+    | none => (w, "bad-op")
+  | "new" =>
+    match nat? rest "k", int? rest "d", nat? rest "h", nat? rest "e", int? rest "v", optRoom w rest "room" with
+    | some k, some d, some h, some e, some v, some room =>
+      if e < 1 ∨ 3 < e ∨ (handleEnt w h).isSome then (w, "bad-op")
+      else
+        let m : LocalWrite.Mut := { handle := h, isNew := true, entity := e, room, val := some v, field := .none }
+        let r := LocalWrite.mutate w.dfl (rooms w) w.db k d m
+        match r with
+        | .ok _ => finish { w with handles := w.handles ++ [(h, e)] } w r
+        | .error _ => finish w w r
+    | _, _, _, _, _, _ => (w, "bad-op")
+  | "upd" =>
+    match nat? rest "k", int? rest "d", nat? rest "h", optRoom w rest "room", optInt rest "v" with
+    | some k, some d, some h, some room, some v =>
+      match handleEnt w h with
+      | none => (w, "bad-op")
+      | some e =>
+        let m : LocalWrite.Mut := { handle := h, isNew := false, entity := e, room, val := v, field := .none }
+        finish w w (LocalWrite.mutate w.dfl (rooms w) w.db k d m)
+    | _, _, _, _, _ => (w, "bad-op")
+  | "nest" =>
+    match nat? rest "k", int? rest "d", nat? rest "h", nat? rest "f", (kv? rest "c").bind parseChildren,
+          optRoom w rest "room", optInt rest "v" with
+    | some k, some d, some h, some f, some children, some room, some v =>
+      if 3 ≤ f ∨ (f ≠ 0 ∧ children.length ≠ 1) then (w, "bad-op")
+      else
+        let (srcE, dstE) := labelTypes f
+        let parentNew := (kv? rest "pn").isSome
+        let parentOk :=
+          if parentNew then nat? rest "pn" = some srcE && (handleEnt w h).isNone && v.isSome
+          else handleEnt w h = some srcE
+        match parentOk, mkLeaves w h parentNew dstE children [] with
+        | true, some leaves =>
+          let field : LocalWrite.Field := match f, leaves with
+            | 0, ls => .arr 0 ls
+            | f, [l] => .ent f l
+            | _, _ => .none
+          let m : LocalWrite.Mut := { handle := h, isNew := parentNew, entity := srcE, room, val := v, field }
+          let r := LocalWrite.mutate w.dfl (rooms w) w.db k d m
+          match r with
+          | .ok _ =>
+            let newH := (if parentNew then [(h, srcE)] else []) ++
+              (leaves.filter (·.isNew)).map fun l => (l.handle, dstE)
+            finish { w with handles := w.handles ++ newH } w r
+          | .error _ => finish w w r
+        | _, _ => (w, "bad-op")
+    | _, _, _, _, _, _, _ => (w, "bad-op")
+  | "null" =>
+    match nat? rest "k", int? rest "d", nat? rest "h", nat? rest "f" with
+    | some k, some d, some h, some f =>
+      if 3 ≤ f then (w, "bad-op")
+      else
+        let (srcE, _) := labelTypes f
+        if handleEnt w h ≠ some srcE then (w, "bad-op")
+        else
+          let m : LocalWrite.Mut := { handle := h, isNew := false, entity := srcE, room := none, val := none, field := .null f }
+          finish w w (LocalWrite.mutate w.dfl (rooms w) w.db k d m)
+    | _, _, _, _ => (w, "bad-op")
+  | "del" =>
+    match nat? rest "k", int? rest "d", nat? rest "h" with
+    | some k, some d, some h =>
+      match handleEnt w h with
+      | none => (w, "bad-op")
+      | some e => finish w w (LocalWrite.deleteNode w.dfl (rooms w) w.db k d h e)
+    | _, _, _ => (w, "bad-op")
+  | "delref" =>
+    match nat? rest "k", int? rest "d", nat? rest "h", nat? rest "f", nat? rest "c" with
+    | some k, some d, some h, some f, some c =>
+      if 3 ≤ f then (w, "bad-op")
+      else
+        let (srcE, dstE) := labelTypes f
+        if handleEnt w h ≠ some srcE ∨ handleEnt w c ≠ some dstE then (w, "bad-op")
+        -- the deletion grammar accepts `field[$id]` for array fields only
+        else if f ≠ 0 then (w, "err:parse " ++ dump w)
+        else finish w w (LocalWrite.deleteRef w.dfl (rooms w) w.db k d h srcE f c)
+    | _, _, _, _, _ => (w, "bad-op")
+  | "deladm" =>
+    match nat? rest "k", int? rest "d", nat? rest "r", nat? rest "i" with
+    | some k, some d, some r, some i =>
+      if !w.rooms.contains r then (w, "bad-op")
+      else
+        match ((w.adminIds.filter (·.1 = r)).map (·.2))[i]?, w.site? 0 with
+        | some id, some st =>
+          match st.getStored r with
+          | none => (w, "bad-op")
+          | some rr =>
+            let tail := fun (rr : RoomRow) => s!" adminrefs={rr.admins.length} roomauthor={Fn.keyStr w rr.author}"
+            if !w.dfl.sysRefDeletionUnguarded then (w, "err:delete-not-allowed" ++ tail rr)
+            else
+              let rr' : RoomRow := { rr with admins := rr.admins.filter (·.id ≠ id), mdate := d, author := k }
+              (w.setSite 0 (st.setStored rr'), "ok" ++ tail rr')
+        | _, _ => (w, "bad-op")
+    | _, _, _, _ => (w, "bad-op")
+  | _ => (w, "bad-op")
+
 def stepLine (w : World) (line : String) : World × String :=
   let toks := tokens line
   match toks with
@@ -132,12 +372,13 @@ def stepLine (w : World) (line : String) : World × String :=
     | some i, some k, some d =>
       if k ≤ 12 ∧ d ≤ 64 then
         let rev := kv? rest "uids" = some "desc"
-        ({ World.blank with active := true, keys := k, dmax := d,
-                            df := { w.df with uidOrderReversed := rev } }, s!"case {i}")
-      else ({ World.blank with df := w.df }, "bad-op")
-    | _, _, _ => ({ World.blank with df := w.df }, "bad-op")
+        ({ World.blank with active := true, keys := k, dmax := d, fn := kv? rest "mode" = some "fn",
+                            df := { w.df with uidOrderReversed := rev }, dfl := w.dfl }, s!"case {i}")
+      else ({ World.blank with df := w.df, dfl := w.dfl }, "bad-op")
+    | _, _, _ => ({ World.blank with df := w.df, dfl := w.dfl }, "bad-op")
   | kind :: rest =>
     if !w.active then (w, "bad-op")
+    else if w.fn then stepFn w kind rest
     else
       match kind with
       | "mut" =>
@@ -196,4 +437,5 @@ def stepLine (w : World) (line : String) : World × String :=
 
 def main (args : List String) : IO Unit := do
   let df := if args.contains "--defects=none" then Defects.none else Defects.asImplemented
-  loop (← IO.getStdin) (← IO.getStdout) stepLine { World.blank with df }
+  let dfl := if args.contains "--defects=none" then LocalWrite.Defects.none else LocalWrite.Defects.asImplemented
+  loop (← IO.getStdin) (← IO.getStdout) stepLine { World.blank with df, dfl }
